@@ -399,7 +399,7 @@ func witnesses(g int) []witness {
 			x.allSign(int64(b))
 			x.evidence([][3]int64{{int64(c), x.h - 1, x.t - 5}})
 			x.end()
-			x.genesis() // a PAUSED, b INACTIVE, c JAILED, g ACTIVE
+			x.genesis(nil) // a PAUSED, b INACTIVE, c JAILED, g ACTIVE
 			x.newBlock(100)
 			x.allSign()
 			x.ownerMsg("unpause", a)
@@ -417,7 +417,7 @@ func witnesses(g int) []witness {
 			x.allSign()
 			x.ownerMsg("pause", a)
 			x.claim(c, c, true)
-			x.genesis() // queues and pending claims are not exported; the new chain starts from the statuses
+			x.genesis(nil) // queues and pending claims are not exported; the new chain starts from the statuses
 			x.newBlock(5)
 			x.allSign()
 			x.end()
@@ -426,7 +426,40 @@ func witnesses(g int) []witness {
 			x.newBlock(5)
 			x.allSign()
 			x.evidence([][3]int64{{int64(g), x.h - 1, x.t - 5}})
-			x.genesis()
+			x.genesis(nil)
+		}},
+		{"max-mischance-lowered-mid-run", 0, func(x *hist, r *hx.Rng) {
+			x.setProp(1, 4) // MaxMischance 4
+			setup(x, a, b)
+			for i := 0; i < 3; i++ { // three misses: mischance 3, still active
+				x.newBlock(5)
+				x.allSign(int64(a))
+				x.end()
+			}
+			x.newBlock(5)
+			x.allSign(int64(a))
+			x.setProp(1, 1) // lowered below the current mischance (4): the next miss must inactivate
+			x.setProp(1, 0) // invalid
+			x.end()
+			for i := 0; i < 3; i++ {
+				x.newBlock(5)
+				x.allSign(int64(a))
+				x.end()
+			}
+		}},
+		{"genesis-import-of-counters-beyond-the-limit", 0, func(x *hist, r *hx.Rng) {
+			setup(x, a, b)
+			x.newBlock(5)
+			x.allSign()
+			x.end()
+			si := x.prev.SI[a]
+			si.Conf, si.Misch = 0, 5 // MaxMischance is 1: already far beyond the limit, validator still ACTIVE
+			x.genesis(map[int]sinfo{a: si})
+			for i := 0; i < 3; i++ {
+				x.newBlock(5)
+				x.allSign(int64(a))
+				x.end()
+			}
 		}},
 		{"downtime-threshold", 3, func(x *hist, r *hx.Rng) { // MC=1, MaxM=3: inactive at the 5th consecutive miss
 			setup(x, a, b, c)
@@ -729,6 +762,11 @@ func generate(x *hist, r *hx.Rng, inject int, g, unknownKey int, c15 bool) {
 		if want && inject == injReset {
 			injected = true
 			x.proposal("reset", 0)
+		}
+		if r.Chance(15) { // a passed SetNetworkProperty proposal: the settings move up and down, also to invalid values
+			which := r.Intn(5)
+			vals := [][]uint64{{0, 1, 2, 3, 5}, {0, 1, 2, 3, 4, 6}, {0, 1, 3, 10}, {0, 1, 10, 60, 600}, {0, 10, 60, 600, 3000000}}[which]
+			x.setProp(which, vals[r.Intn(len(vals))])
 		}
 		x.end()
 	}
